@@ -7,8 +7,11 @@ From Model Require Import Base PyVal TableTypes C05Model.
 From Gen Require Import Tables.
 Open Scope N_scope.
 
+(* Hist: a history of calls on the shared process state; [expect] = the verdict the
+   implementation gave for each call, [heap] = deep snapshot (vars(reg)) of every
+   caller-created registry object of the history after its last call *)
 Inductive c05case :=
-| Hist (drafts : bool) (h : list call) (expect : list verdict)
+| Hist (drafts : bool) (h : list call) (expect : list verdict) (heap : list regobj)
 | NoneVerify (msg sig : bytes) (expect : res bool)
 | NoneSign (msg : bytes) (expect : res bytes).
 
@@ -18,6 +21,45 @@ Definition verdict_eqb (a b : verdict) : bool :=
   | VUnit x, VUnit y => res_eqb (fun _ _ => true) x y
   | _, _ => false
   end.
+
+(* structural equality of values (1 and True, 1 and 1.0 are different snapshots) *)
+Definition flt_eqb (a b : flt) : bool :=
+  match a, b with
+  | FFin n d, FFin m e => Z.eqb n m && Pos.eqb d e
+  | FInf x, FInf y => Bool.eqb x y
+  | FNan, FNan => true
+  | _, _ => false
+  end.
+Fixpoint pv_eqb (a b : pv) {struct a} : bool :=
+  match a, b with
+  | PNone, PNone => true
+  | PBool x, PBool y => Bool.eqb x y
+  | PInt x, PInt y => Z.eqb x y
+  | PFloat x, PFloat y => flt_eqb x y
+  | PStr x, PStr y => str_eqb x y
+  | PBytes x, PBytes y => beqb x y
+  | PList l, PList m =>
+      (fix go (l m : list pv) {struct l} : bool :=
+         match l, m with
+         | [], [] => true
+         | x :: l', y :: m' => pv_eqb x y && go l' m'
+         | _, _ => false
+         end) l m
+  | PDict d, PDict e =>
+      (fix go (d e : list (str * pv)) {struct d} : bool :=
+         match d, e with
+         | [], [] => true
+         | (k, x) :: d', (k', y) :: e' => str_eqb k k' && pv_eqb x y && go d' e'
+         | _, _ => false
+         end) d e
+  | _, _ => false
+  end.
+Definition regcls_eqb (a b : regcls) : bool :=
+  match a, b with RcJws, RcJws | Rc7797, Rc7797 | RcJwe, RcJwe => true | _, _ => false end.
+Definition regobj_eqb (a b : regobj) : bool :=
+  regcls_eqb (ro_cls a) (ro_cls b) && pv_eqb (ro_allowed a) (ro_allowed b) &&
+  Bool.eqb (ro_strict a) (ro_strict b) && Bool.eqb (ro_verify_all a) (ro_verify_all b) &&
+  list_eqb str_eqb (ro_extra_headers a) (ro_extra_headers b).
 
 (* the draft algorithms are registered through the model of `register` *)
 Definition drafts_world : world :=
@@ -30,15 +72,16 @@ Definition case_world (drafts : bool) : world := if drafts then drafts_world els
 
 Definition c05_check (c : c05case) : bool :=
   match c with
-  | Hist d h e => list_eqb verdict_eqb (verdicts h (case_world d)) e
+  | Hist d h e heap => list_eqb verdict_eqb (verdicts h (case_world d)) e &&
+                       list_eqb regobj_eqb (w_regs (run h (case_world d))) heap
   | NoneVerify m s e => res_eqb Bool.eqb (Ok (none_verify m s)) e
   | NoneSign m e => res_eqb beqb (Ok (none_sign m)) e
   end.
 
-Inductive c05out := OV (l : list verdict) | OB (b : bool) | OS (s : bytes).
+Inductive c05out := OV (l : list verdict) (heap : list regobj) | OB (b : bool) | OS (s : bytes).
 Definition c05_show (c : c05case) : c05out :=
   match c with
-  | Hist d h _ => OV (verdicts h (case_world d))
+  | Hist d h _ _ => OV (verdicts h (case_world d)) (w_regs (run h (case_world d)))
   | NoneVerify m s _ => OB (none_verify m s)
   | NoneSign m _ => OS (none_sign m)
   end.
